@@ -8,6 +8,8 @@ from .symexec import Obligation, Unsupported, Infeasible, Raised, Engine
 from .speclib import LoopStepDone
 
 LIB_EXC = "odata_query.exceptions.ODataException"
+UNFOLD_ROUNDS = 4
+MAX_REFINE = 8
 
 
 def src_of(fact):
@@ -62,9 +64,10 @@ def eval_closed(E, model, t, timeout_ms=5000):
     evaluated in the model (cheap), substituted, and the closed term is normalised by the
     rewriter, which unfolds recursive definitions on concrete arguments (model.eval on terms with
     recursive functions overflows in z3 5.1)."""
+    from .deffun import to_rec
     subs = [(c, model.eval(c, model_completion=True)) for c in _free_consts(t).values()]
     closed = z3.substitute(t, *subs) if subs else t
-    return z3.simplify(closed)
+    return z3.simplify(to_rec(closed))
 
 
 def judge(E, name, clause, hyps, goal, source, timeout_ms, witness_terms=None, extra=None, path_idx=None,
@@ -77,10 +80,34 @@ def judge(E, name, clause, hyps, goal, source, timeout_ms, witness_terms=None, e
         hyps.append(z3.Not(w))
     if isinstance(goal, bool):
         goal = z3.BoolVal(goal)
-    st, model, dt, reason = discharge(hyps, goal, timeout_ms)
+    from .deffun import unfold_closure, refine_with_model
+    done = set()
+    hyps = hyps + unfold_closure(hyps + [goal], rounds=UNFOLD_ROUNDS, done=done)
+    total = 0.0
+    refinements = 0
+    last_sat = None
+    while True:
+        st, model, dt, reason = discharge(hyps, goal, timeout_ms if last_sat is None else min(timeout_ms, 5000))
+        total += dt
+        if st == "undecided" and last_sat is not None:
+            # the refined query is too hard; the previous counter-model (of a weaker hypothesis set) stands
+            # as the candidate counterexample -- it is replayed natively before anything is claimed
+            st, model, reason = "refuted", last_sat, "sat (refinement incomplete: " + str(reason) + ")"
+            break
+        if st != "refuted" or refinements >= MAX_REFINE:
+            break
+        last_sat = model
+        # counter-model may rest on an un-unfolded spec function: unfold where the model looks
+        new = refine_with_model(model, hyps + [goal], done)
+        if not new:
+            break
+        new = new + unfold_closure(new, rounds=2, done=done)
+        hyps = hyps + new
+        refinements += 1
+    dt = total
     r = {"name": name, "clause": clause, "status": st, "seconds": dt, "reason": reason,
          "backend": "z3-5.1.0-api", "source": source, "path": path_idx,
-         "goal_text": str(z3.simplify(goal))[:400]}
+         "goal_text": str(z3.simplify(goal))[:400], "refinements": refinements}
     if extra:
         r.update(extra)
     if st == "refuted":
@@ -107,13 +134,13 @@ def outcomes_to_results(E, base, source, results, post, allowed_exc, witness_ter
             g = post(path, outcome[1])
             if isinstance(g, list):
                 for clause, goal in g:
-                    obls.append(Obligation(clause, path.pc, goal))
+                    obls.append(Obligation(clause, path.pc + path.insts, goal))
             elif g is not None:
-                obls.append(Obligation("post.value", path.pc, g))
+                obls.append(Obligation("post.value", path.pc + path.insts, g))
         elif kind == "raise":
             exc = outcome[1]
             if not allowed_exc(exc):
-                obls.append(Obligation("safety.raise", path.pc, z3.BoolVal(False), {"exception": exc.name,
+                obls.append(Obligation("safety.raise", path.pc + path.insts, z3.BoolVal(False), {"exception": exc.name,
                                                                                       "args": repr(exc.args)[:200]}))
             else:
                 obls.append(Obligation("raise.allowed", path.pc, z3.BoolVal(True), {"exception": exc.name}))
@@ -130,3 +157,33 @@ def outcomes_to_results(E, base, source, results, post, allowed_exc, witness_ter
 
 def is_lib_exc(exc):
     return LIB_EXC in exc.mro
+
+
+def visit_family(E, facts, prop, cls_qualname, kind, make_self, pre, post, allowed_exc, witness, timeout_ms,
+                 exclude=None, entry="visit", prefix="f"):
+    """Obligation family `<Class>.visit[kind]`: run the class's MRO-resolved `visit` on an arbitrary node of
+    `kind` (fresh field constants), inlining the dispatched handler; recursive `self.visit(child)` calls go
+    through the registered contract.  pre(path, node) assumes; post(path, node, value) -> goal(s)."""
+    from .speclib import fresh_node
+    from .symexec import FuncRef, Sym
+    cf = facts.classes[cls_qualname]
+    m = cf["members"][entry]
+    handler = cf["members"].get("visit_" + kind) or cf["members"]["generic_visit"]
+    fr = FuncRef(m, defcls=m["definer"])
+    holder = {}
+
+    def runner(path):
+        node, consts = fresh_node(E, path, kind, prefix)
+        holder["node"] = node
+        holder["consts"] = consts
+        pre(path, node)
+        self_obj = make_self(path)
+        return E.run_function(path, fr, [self_obj, Sym(node)], self_val=self_obj)
+
+    res = explore(E, runner)
+    node = holder.get("node")
+    base = f"{prop}:{handler['qualname']}[{kind}]"
+    wt = witness(node) if node is not None else {}
+    ex = exclude(node) if (exclude and node is not None) else None
+    return outcomes_to_results(E, base, src_of(handler), res, lambda path, v: post(path, node, v), allowed_exc, wt,
+                               timeout_ms, exclude=ex)
